@@ -15,7 +15,7 @@ def load_sessions(path):
     return out
 
 
-def validate(files, workdir, workers_per_tlc=4, parallel=3, timeout=3000, heap='6g'):
+def validate(files, workdir, workers_per_tlc=4, parallel=3, timeout=3000, heap='6g', cfg='Trace_CEK.cfg'):
     """Run Trace_CEK over each ndjson file.  Returns (mismatches, ends, stats)."""
     mism, ends = [], []
     stats = {'generated': 0, 'distinct': 0, 'tlc_runs': 0, 'wall': 0.0}
@@ -23,7 +23,7 @@ def validate(files, workdir, workers_per_tlc=4, parallel=3, timeout=3000, heap='
     def one(i_path):
         i, path = i_path
         md = os.path.join(workdir, 'meta%d' % i)
-        r = vlib.tlc('Trace_CEK', 'Trace_CEK.cfg', md, env={'TRACE': path}, workers=workers_per_tlc,
+        r = vlib.tlc('Trace_CEK', cfg, md, env={'TRACE': path}, workers=workers_per_tlc,
                      timeout=timeout, heap=heap)
         return path, r
 
